@@ -337,7 +337,13 @@ type participant struct {
 
 // CheckContract verifies that a sequence of participants obeys the ordering contract.
 func CheckContract(seq []participant) string {
-	rank := map[string]int{"priority": 0, "ordered": 1, "": 2}
+	// "marker" = the Priority marker without Order(): not ordered, hence unordered
+	rank := map[string]int{"priority": 0, "ordered": 1, "": 2, "marker": 2}
+	for i := range seq {
+		if seq[i].Class == "marker" {
+			seq[i].Class = ""
+		}
+	}
 	for i := 1; i < len(seq); i++ {
 		a, b := seq[i-1], seq[i]
 		if rank[a.Class] > rank[b.Class] {
